@@ -4,6 +4,7 @@ from __future__ import annotations
 
 import io
 import signal
+import subprocess
 import struct
 import sys
 import time
@@ -49,7 +50,76 @@ def _hook(event, args):
 
 
 def shards(tier, seed):
-    return [{"ndumps": NDUMPS[tier]} for _ in range(NSH[tier])]
+    out = [{"ndumps": NDUMPS[tier]} for _ in range(NSH[tier])]
+    out.append({"kind": "deep", "depths": [300, 20000, 400000] if tier == "quick" else [300, 3000, 20000, 100000, 400000, 1000000]})
+    return out
+
+
+# ---------------------------------------------------------------------------
+# nesting far beyond what dumps() can produce (the loader is an iterative stack machine: a few bytes per level).
+# A probe may take the interpreter down, so each one runs in a child process.
+
+DEEP_CHILD = r"""
+import sys, faulthandler
+faulthandler.enable()
+import execnet
+from execnet.gateway_base import LoadError
+n, shape = int(sys.argv[1]), sys.argv[2]
+I1 = b"\x00\x00\x00\x01"
+if shape == "tuple_plain":
+    data = b"L" + (b"@" + I1) * n + b"Q"
+elif shape == "tuple_in_set":
+    data = b"L" + (b"@" + I1) * n + b"O" + I1 + b"Q"
+elif shape == "tuple_in_frozenset":
+    data = b"L" + (b"@" + I1) * n + b"E" + I1 + b"Q"
+elif shape == "tuple_as_dict_key":
+    data = b"J" + b"L" + (b"@" + I1) * n + b"L" + b"P" + b"Q"
+elif shape == "frozenset_nest":
+    data = b"L" + (b"E" + I1) * n + b"Q"
+elif shape == "list_nest":
+    data = (b"K" + I1 + b"F\x00\x00\x00\x00") * n + b"L" + b"P" * n + b"Q"
+elif shape == "dict_nest":
+    data = (b"J" + b"F\x00\x00\x00\x00") * n + b"L" + b"P" * n + b"Q"
+data = b"\x02" + data
+try:
+    v = execnet.loads(data)
+    out = "ok " + type(v).__name__
+    del v
+except (LoadError, EOFError) as e:
+    out = "typed " + type(e).__name__
+except BaseException as e:
+    out = "untyped " + type(e).__name__ + " " + str(e)[:80]
+print(out + " bytes=%d" % len(data))
+"""
+HASHED = ("tuple_in_set", "tuple_in_frozenset", "tuple_as_dict_key")
+
+
+def run_deep(spec):
+    res = Result()
+    for n in spec["depths"]:
+        for shape in ("tuple_plain", "tuple_in_set", "tuple_in_frozenset", "tuple_as_dict_key", "frozenset_nest", "list_nest", "dict_nest"):
+            label = f"{shape} nested {n} levels"
+            try:
+                p = subprocess.run([core.PY, "-c", DEEP_CHILD, str(n), shape], env=core.child_env(), capture_output=True, text=True, timeout=120)
+            except subprocess.TimeoutExpired:
+                res.violation("load-does-not-terminate", f"{label}: no result after 120 s")
+                continue
+            res.count("deep_nesting_probes")
+            res.case(core.h64("deep", n, shape))
+            out = p.stdout.strip()
+            if p.returncode < 0 or p.returncode >= 128:
+                mech = "interpreter-crash-in-loads:hash-of-deeply-nested-tuple" if shape in HASHED else f"interpreter-crash-in-loads:{shape}"
+                res.violation(mech, f"{label} ({5 * n} bytes of input, every length field 1): child ended with status {p.returncode}; "
+                                    f"{short(p.stderr.strip().splitlines()[:1], 120)}")
+            elif out.startswith("untyped"):
+                res.violation("untyped-exception:" + out.split()[1] + ":deep-nesting", f"{label}: {out}")
+            elif not (out.startswith("ok") or out.startswith("typed")):
+                res.violation("deep-probe-failed", f"{label}: rc={p.returncode} {short(p.stdout, 100)} {short(p.stderr, 300)}")
+            else:
+                res.count("deep_nesting_probes_survived")
+                if len(res.samples) < 3:
+                    res.sample({"deep_probe": label, "result": out})
+    return res
 
 
 class PosStream(io.BytesIO):
@@ -303,6 +373,8 @@ def abuse_streams(rng, g):
 
 
 def run_shard(spec):
+    if spec.get("kind") == "deep":
+        return run_deep(spec)
     res = Result()
     rng = core.rng_for("C13", spec["tier"], spec["seed"], spec["shard"])
     g = values.Gen(rng, max_bytes=200, huge_ints=False, max_depth=4)
